@@ -76,4 +76,14 @@ example : (drainAll 0 0 (run 0 0 {} lagging)).d = [] := by decide
 example : (drainAll 2 0 (run 2 0 {} lagging)).d = [⟨4, false⟩, ⟨5, false⟩] := by decide
 example : (drainAll 0 2 (run 0 2 {} lagging)).d = [⟨4, true⟩, ⟨5, true⟩] := by decide
 
+/-- **Why `shutdown()` must wait for the thread** (the seeded change C07f: the asynchronous writer
+    thread only flushes on shutdown, the cleanup thread is neither told to stop nor joined). A
+    `shutdown()` that does not drain leaves the directory as the lagging thread last left it: the
+    limits `k = 1`, `m = 2` are exceeded (four plain files), whereas the drained directory obeys
+    them. -/
+theorem no_drain_violation_witness :
+    ((run 1 2 {} lagging).d.filter (fun f => !f.gz)).length = 4 ∧
+    ((drainAll 1 2 (run 1 2 {} lagging)).d.filter (fun f => !f.gz)).length = 1 ∧
+    ((drainAll 1 2 (run 1 2 {} lagging)).d.filter (fun f => f.gz)).length = 2 := by decide
+
 end FV.C07Bg
